@@ -18,6 +18,12 @@ checks = {
  "C06": ("exploration", "enum", E1,
          "Every byte string of every <=2-byte MAC payload, all 2^24 BeaconFreqReq strings, per-position sweeps (thorough: all byte pairs, all 2^24 NewChannelReq frequency codes) of the 4/5-byte payloads, all 256 header bytes, all 65536 ChMask values, all CID x direction registry entries, CFList and join payload layouts, decoded by the library and by an independent bit-field table and re-encoded by both.",
          "The table model mc/spec/mac.go is written from the LoRaWAN 1.0.4/1.1 text; cells where revisions disagree (DutyCycleReq 16..254, NewChannelReq 2.4 GHz codes) are decoded but not judged."),
+ "C02": ("exploration", "enum", E1,
+         "Three complete products (frame shapes x versions; the full parameter alphabet product on six shapes with all 32 carried-MIC bit flips; single-bit walks over every bit of FCnt, ConfFCnt, DevAddr, both keys, txDR, txCh and of the serialised frame) executed through Set/Validate/ValidateUplinkDataMICF and compared with B0/B1 + RFC 4493 AES-CMAC written independently from the specification.",
+         "crypto/aes trusted; CMAC re-implemented and self-tested on RFC 4493 vectors. 128-bit keys and 32-bit counters are covered by small alphabets plus complete single-bit walks (data-independence of the code in these parameters argued in DESIGN.md section 1)."),
+ "C03": ("exploration", "enum", E1,
+         "Every payload length 0..255 x direction x key/DevAddr/FCnt alphabets x buffer layouts through the exported EncryptFRMPayload, every FOpts length incl. the rejected 16+, and the four PHYPayload methods over every MType x FPort x FOpts form x FRMPayload form, compared with the specification keystream; lossless-or-error is decided per call (nil error => bytes must equal the spec transform).",
+         "crypto/aes trusted; key/DevAddr/FCnt alphabets plus single-bit walks."),
 }
 
 def load_extra():
